@@ -691,6 +691,14 @@ fn c10_regexes(tier: Tier) -> Vec<P> {
             v.push(P::ConcatL(vec![all.clone(), b1.clone(), all.clone(), b2.clone(), all.clone()]));
         }
     }
+    // sigma* in front of an alternative of literals whose occurrences nest (the shortest match of sigma*.R ends at the
+    // earliest-ending occurrence of R, not at the end of the leftmost one)
+    for (i, l) in lit.iter().enumerate() {
+        v.push(P::Concat(a2(P::All), l.clone()));
+        for m in lit.iter().skip(i + 1) {
+            v.push(P::Concat(a2(P::All), a2(P::Union(l.clone(), m.clone()))));
+        }
+    }
     // anchored nested loops: x (inner){c,d} y with inner a power or a loop (a flattened loop with holes matches too much)
     for inner in [a2(P::Pow(a2(P::Ch(a)), 2)), a2(P::Pow(a2(P::Ch(a)), 3)), a2(P::Loop(a2(P::Ch(a)), 2, 3)), a2(P::Loop(a2(P::Ch(a)), 4, 5)), a2(P::Pow(a2(P::Str(vec![a, b])), 2))] {
         for (c, d) in [(2u32, 3u32), (1, 2), (2, 2), (3, 4), (0, 2)] {
